@@ -128,6 +128,7 @@ var cello_verif_stack_top(var top) { return IN.dir ? (var)&STK[NK] : (var)&STK[1
 #define OP_RECURSE 10
 #define OP_MARK_TOP 11
 #define OP_SWEEP_OWN 12
+#define OP_REM_PENDING 13
 
 #if NS == 1
 #define MAXN 0
@@ -349,6 +350,34 @@ V_HARNESS {
     _Bool all = 1;
     for (int w = 0; w < NK; w++) { _Bool found = 0; for (int j = 0; j < NK; j++) if (j < n_item && rec_item[j] == (var)STK[1 + w]) found = 1; if (!found) all = 0; }
     V_ASSERT(all, "mark: every stack word reaches the marker (either stack direction)"); }
+#elif OP == OP_REM_PENDING
+  /* explicit del (as issued by an owner's destructor) WHILE A SWEEP IS IN PROGRESS: the registry has already been
+   * compacted, the unreachable objects sit in the pending-free list (arbitrary subset of the unregistered cells,
+   * some entries already processed = NULL).  The object deleted is either pending, or still registered, or neither. */
+  V_ASSUME(inv(gc, NS, 0));
+  { size_t fn = IN.mitems % (NS - 1); gc->freelist = (var*)FLBUF; gc->freenum = fn; fl_live = 1;
+    _Bool pend[NC]; for (long i = 0; i < NC; i++) pend[i] = 0;
+    for (size_t i = 0; i < NS - 1; i++) if (i < fn) {
+      signed char w = IN.stk[i % NK] ; long ci = (IN.home[i] % (NC + 1)) - 1;         /* -1 = already processed (NULL) */
+      if (ci >= 0) { V_ASSUME(!pre_reg[ci] && !pend[ci]); pend[ci] = 1; FLBUF[i] = cell_at(ci); } else FLBUF[i] = NULL;
+    }
+    var snapfl[NS]; for (size_t i = 0; i < NS - 1; i++) snapfl[i] = FLBUF[i];
+    GC_Rem(gc, pc);
+    V_WITNESS("rem during sweep completed");
+    if (pend[c]) {
+      V_ASSERT(finalised[c] == 1 && freed[c] == 1 && order_ok, "an object deleted while it waits in the pending-free list is finalised and released exactly once, there and then");
+      _Bool blanked = 1, others = 1;
+      for (size_t i = 0; i < NS - 1; i++) if (i < fn) { if (snapfl[i] == pc) { if (FLBUF[i] != NULL) blanked = 0; } else if (FLBUF[i] != snapfl[i]) others = 0; }
+      V_ASSERT(blanked, "its pending-free entry is blanked, so the sweep will not finalise it a second time");
+      V_ASSERT(others, "no other pending entry is touched");
+      V_ASSERT(gc->nitems == n && inv(gc, NS, 0), "the registry is not touched (the object had already been unregistered by the sweep)");
+    } else if (c_in) {
+      V_ASSERT(finalised[c] == 1 && freed[c] == 1 && gc->nitems == n - 1, "a still registered object is unregistered, finalised and released exactly once");
+    } else {
+      V_ASSERT(finalised[c] == 0 && freed[c] == 0 && gc->nitems == n, "an object that is neither registered nor pending (already finalised by the sweep) is left alone");
+    }
+    for (long i = 0; i < NC; i++) if (i != c) V_ASSERT(finalised[i] == 0 && freed[i] == 0, "no other object is finalised");
+  }
 #elif OP == OP_SWEEP_OWN
   /* ownership inside a sweep, concrete layout: cell 0 (a Box-like owner) owns cell 1; both registered in adjacent
    * slots in either order (-DSWAP), both unreachable or only one of them (marks symbolic).  destruct(owner)
